@@ -305,3 +305,22 @@ def param_pairs(g: Gen) -> list[tuple[str, object]]:
                     outer = ko(inner, base=a) if bo else ko(inner, a)
                     out.append((f"ppair:{no}[{a:.3g}]/{ni}[{b:.3g}]", outer))
     return out
+
+
+def twin_patterns(g: Gen) -> list[tuple[str, object]]:
+    """n-ary nodes with structurally equal operands that are *distinct objects* (and, for contrast,
+    the same object twice): anything that confuses equality with identity shows up here"""
+    out = []
+    r = g.rng
+    for _ in range(6):
+        u = g.expr(r.choice([1, 2]))
+        fs = [X.Sine, X.Cosine, X.Exponential, lambda v: X.NthPower(v, 2), X.Negation,
+              lambda v: X.Multiply(v, X.Variable("x")), lambda v: X.Add(v, X.Constant(1.0))]
+        f = r.choice(fs)
+        a, b, c = f(u), f(clone(u)), f(clone(u))
+        out.append(("twin:mul", X.Multiply(a, b)))
+        out.append(("twin:add", X.Add(a, b, g.expr(1))))
+        out.append(("twin:add3", X.Add(g.expr(1), a, b, c)))
+        out.append(("twin:same-object", X.Multiply(a, a, b)))
+        out.append(("twin:nested", X.Logarithm(X.Add(X.NthPower(clone(u), 2), X.NthPower(clone(u), 2), X.Constant(1.0)))))
+    return out
